@@ -180,7 +180,7 @@ class Line(object):
         return '<L%s ind=%s %r>' % (self.tline, self.indent, self.text)
 
 
-def skeleton(fn, indent_name='indent', env=None, choose=None):
+def skeleton(fn, indent_name='indent', env=None, choose=None, unroll=None, on_iteration=None):
     """All-branches-taken shape of the text emitted by template function ``fn``.
 
     Returns list of Line.  Placeholders ``\x00k\x00`` in the text stand for the
@@ -244,8 +244,13 @@ def skeleton(fn, indent_name='indent', env=None, choose=None):
                     ind = 4 * lvl if lvl is not None else -1
                     a0 = e.args[0]
                     lit, lex = None, []
+                    left = a0
+                    while isinstance(left, ast.BinOp) and isinstance(left.op, (ast.Add, ast.Mod)):
+                        left = left.left
                     if isinstance(a0, ast.Constant) and isinstance(a0.value, str):
                         lit = a0.value
+                    elif isinstance(a0, ast.BinOp) and isinstance(left, ast.Constant) and isinstance(left.value, str) and left.value.lstrip().startswith('#') and '\n' not in left.value:
+                        lit = '# (computed comment)'     # "# text" + something: the emitted line is a comment whatever the rest evaluates to
                     elif isinstance(a0, ast.BinOp) and isinstance(a0.op, ast.Mod) and isinstance(a0.left, ast.Constant) \
                             and isinstance(a0.left.value, str) and '\n' not in a0.left.value:
                         # 'literal %s text' % expr : literal text with spliced expressions
@@ -274,7 +279,13 @@ def skeleton(fn, indent_name='indent', env=None, choose=None):
                 if s.orelse and (pick is None or not pick):
                     walk(s.orelse, guards + [ast.UnaryOp(op=ast.Not(), operand=s.test)], loops)
             elif isinstance(s, ast.For):
-                walk(s.body, guards, loops + [s])
+                # a template loop is emitted once, or - when the caller asks - several times in a row (state kept in template variables such as an indent level
+                # carries over from one iteration to the next exactly as it does when the template runs)
+                times = (unroll or {}).get(ast.unparse(s.iter).replace(' ', ''), 1)
+                for k in range(times):
+                    if on_iteration is not None:
+                        on_iteration(s, k)
+                    walk(s.body, guards, loops + [s])
             elif isinstance(s, ast.Assign) and len(s.targets) == 1 and isinstance(s.targets[0], ast.Name):
                 v = const_int(s.value)
                 if v is not None:
